@@ -315,6 +315,17 @@ def large_graphs():
     return out
 
 
+def deep_only():
+    """graphs for kruskal / prim only (too large for the all-pairs functions that share large_graphs()): a chain whose
+    edges name the new node first, closed by a heavier edge that asks for the far end of the chain last"""
+    n = 1500
+    return [("back_pointing_chain_1500", n, [(i + 1, i, 1) for i in range(n - 2)] + [(0, n - 1, 2)])]
+
+
+def all_large():
+    return large_graphs() + deep_only()
+
+
 def naive_msf(n, edges):
     """(components, minimum spanning forest weight) by Kruskal with a plain label array (reference model)"""
     label = list(range(n))
@@ -331,7 +342,7 @@ def _large_chunk(params, lo, hi):
     from solvor.mst import kruskal, prim
     from solvor.types import Status
 
-    gs = large_graphs()
+    gs = all_large()
     r = new_result()
     for idx in range(lo, hi):
         name, n, edges0 = gs[idx // 3]
@@ -422,7 +433,7 @@ def jobs(tier, seed):
     js.append(Job(f"n8_ordered_lists_of_{k8}_of_10_pairs", math.perm(len(K8_PAIRS), k8), _k8_chunk, k8, describe=f"kruskal(8, ...) on every ordered list of {k8} distinct pairs out of {K8_PAIRS}, weight = list position"))
     for n in (1, 2, 3, 4):
         js.append(Job(f"n{n}_over_absent-1012", 5 ** len(_pairs(n)), _simple_chunk, (n, A5, STR), describe="all graphs, per-pair weight in {absent,-1,0,1,2}; odd indices use string labels (every 4th: None/falsy/tuple/float labels) for prim"))
-    js.append(Job("large_structured", len(large_graphs()) * 3, _large_chunk, None, chunk=1, describe="path and cycle on 70 nodes, 8x8 grid, K11..K13 with modular weights, two K6 plus an isolated node; three edge-list variants; kruskal, prim from the default and from the last node; reference: Kruskal over a label array"))
+    js.append(Job("large_structured", len(all_large()) * 3, _large_chunk, None, chunk=1, describe="path and cycle on 70 nodes, 8x8 grid, K11..K13 with modular weights, two K6 plus an isolated node; three edge-list variants; kruskal, prim from the default and from the last node; reference: Kruskal over a label array"))
     js.append(Job("n3_multigraph_many_parallel", 9 * 3 * 512, _multi3_chunk, None, describe="3 nodes, up to 8+2 self loops and up to 3 parallel edges per pair with weights {1,2,3}"))
     js.append(Job("n3_selfloops", 125 * 27, _loops_chunk, None, describe="3 nodes with optional self loops of weight -1/1"))
     for L in (1, 2, 3, 4):
@@ -443,7 +454,7 @@ def jobs(tier, seed):
 def replay(v):
     w = v["witness"]
     if w.get("function") == "large":
-        names = [g[0] for g in large_graphs()]
+        names = [g[0] for g in all_large()]
         i = names.index(w["graph"]) * 3 + w["variant"]
         rr = _large_chunk(None, i, i + 1)
         for x in rr["violations"]:
